@@ -9,6 +9,7 @@ import (
 	"strings"
 
 	"package-operator.run/internal/packages/zzverif/checks"
+	"package-operator.run/internal/packages/zzverif/checks/twin"
 	"package-operator.run/internal/packages/zzverif/kmodel"
 	"package-operator.run/internal/packages/zzverif/osw"
 	"package-operator.run/internal/packages/zzverif/report"
@@ -412,6 +413,18 @@ func replay(v report.Violation) string {
 	return osw.ReplayBFS(system(sc), v)
 }
 
+// twinScenarios: teardown (archive / delete) of the cluster-scoped kinds in lockstep with the namespaced ones.
+func twinScenarios(quick bool) []twin.Scenario {
+	out := []twin.Scenario{
+		{Kind: "chain", N: 2, Mask: 0, Classes: []string{"ready"}, Users: 2, Third: 1},
+		{Kind: "chain", N: 2, Mask: 0b10, Classes: []string{"ready"}, Users: 1},
+	}
+	if !quick {
+		out = append(out, twin.Scenario{Kind: "chain", N: 3, Mask: 0b101, Classes: []string{"ready"}, Users: 2}, twin.Scenario{Kind: "chain", N: 2, Mask: 0b11, Classes: []string{"ready", "notready"}, Users: 2})
+	}
+	return out
+}
+
 func init() {
 	checks.Register(&checks.Check{
 		ID:    "C04",
@@ -425,6 +438,7 @@ func init() {
 				return 16
 			}
 			return 8
-		}, Run: run, Replay: replay, Parallel: true}},
+		}, Run: run, Replay: replay, Parallel: true},
+			twin.Sub("C04", twinScenarios)},
 	})
 }
